@@ -11,6 +11,7 @@ from .env import FileBuilder
 from .model import (Model, ModelAPI, MBuild, must_run, iter_nodes, ancestors, Node)
 from .monitor import FsMonitor, classify_lib_mutations
 from .prog import Ctx, make_root, UserBoom, errname
+from . import innerstmts  # noqa: F401  (registers the 'inner' statement)
 from .jsonref import type_exact_equal, jsonable
 
 
@@ -580,6 +581,17 @@ class World:
         if rec is not None:
             allowed_files |= set(rec.outputs)
             allowed_rmdirs |= set(rec.created_dirs)
+        # nothing the library does during a call may touch a path outside the sandbox and its private
+        # temp dir (e.g. paths remembered from an earlier build of the same process)
+        base = os.path.dirname(self.sb) + os.sep
+        for e in sr.mon.events:
+            if e['user'] or e['ev'] in ('os.listdir', 'os.scandir'):
+                continue
+            out = [p for p in e['paths'] if not p.startswith('<') and not (p + os.sep).startswith(base)]
+            if out:
+                sr.divs.append(div('foreign_event', ev=e['ev'], phase=e['phase'], paths=out[:2],
+                                   classes=['outside-sandbox']))
+                break
         bad = classify_lib_mutations(sr.mon, allowed_files, allowed_rmdirs, self.tmp, self.cache)
         for e in bad:
             if e['ev'] == 'os.rmdir':
